@@ -500,11 +500,15 @@ impl Xot {
         } else {
             Prefixes::new()
         };
-        // now filter these by namespaces actually required
+        // now filter these by namespaces actually required; a prefix that the
+        // node declares itself is not inherited, whatever it was bound to
         let unresolved_namespaces = HashSet::from_iter(self.unresolved_namespaces(node));
+        let declared = self.namespaces(node);
         prefixes
             .into_iter()
-            .filter(|(_, ns)| unresolved_namespaces.contains(ns))
+            .filter(|(prefix, ns)| {
+                unresolved_namespaces.contains(ns) && !declared.contains_key(*prefix)
+            })
             .collect::<Prefixes>()
     }
 
